@@ -79,7 +79,13 @@ def build_waveform(w):
 
 def build_sequence(case) -> Sequence:
     reg = Register(dict(zip(qids_of(case), coords_of(case))))
-    seq = Sequence(reg, MockDevice)
+    device = MockDevice
+    if case.get("device_noise"):
+        # a custom device that carries a default noise model
+        import dataclasses
+
+        device = dataclasses.replace(MockDevice, default_noise_model=NoiseModel(**case["device_noise"]))
+    seq = Sequence(reg, device)
     for ch in case["channels"]:
         if ch["id"].endswith("_local"):
             seq.declare_channel(ch["name"], ch["id"], initial_target=qids_of(case)[ch.get("target", 0)])
@@ -112,6 +118,15 @@ def noise_model_of(case) -> NoiseModel:
         nz["eff_noise_opers"] = tuple(qutip.Qobj(np.array(m, dtype=complex)) for m in nz["eff_noise_opers"])
         nz["eff_noise_rates"] = tuple(nz["eff_noise_rates"])
     return NoiseModel(**nz)
+
+
+def effective_noise(case):
+    """the noise the backend must emulate: the device's default noise model
+    when the configuration prefers it (and the device has one), else the
+    configuration's own"""
+    if case.get("device_noise") and case.get("prefer"):
+        return dict(case["device_noise"])
+    return case.get("noise")
 
 
 def used_bases(case) -> set:
@@ -258,6 +273,7 @@ def v2_config_of(case):
         observables=[obs],
         sampling_rate=case.get("rate", 1.0),
         noise_model=noise_model_of(case),
+        prefer_device_noise_model=bool(case.get("prefer", False)),
         **kw,
     )
 
